@@ -11,7 +11,7 @@ from findings import c08_common as W
 IMPORTS = "From Ford Require Import Base.Str Sem.Calls Sem.CallsSpec Corr.C08."
 THEOREMS = ["C08_strip_levels", "C08_strip_levels_stmt", "C08_keywords_filtered", "C08_literals_inert",
             "C08_literals_any_body", "C08_raw", "C08_raw_segs", "C08_once", "C08_format_inert",
-            "C08_exact", "C08_refuted_unresolved_array", "C08_refuted_intrinsic_named", "C08_fixed_witnesses"]
+            "C08_gate", "C08_gate_call", "C08_assoc_step", "C08_raw_assoc", "C08_unit_run", "C08_exact", "C08_refuted_unresolved_array", "C08_refuted_intrinsic_named", "C08_fixed_witnesses"]
 # open regions of Sem/CallsSpec.v region_of (2, 4, 5, 6, 8, 9 were repaired in FORD; 7 = FORD's name tables differ from
 # the program's: repaired by the C07 fix, so a hit there is a violation)
 REGION_KEYS = {1: "unresolved-array", 3: "intrinsic-named-procedure"}
@@ -88,6 +88,7 @@ def sample_statements(rng, n):
     out = []
     while len(out) < n:
         for st in G.gen_body(rng, env, 3, rng.choice([1, 2, 3])):
+            st = G.recase_stmt(rng, st, rng.choice([0.0, 0.0, 0.3, 0.6]))
             out.append((G.r_stmt(st), st))
     return out[:n]
 
@@ -216,6 +217,35 @@ def unit_term(tb_ford, tb_true, srcs, impl, asts, strict=True):
             f"{coq_bool(strict)})")
 
 
+def recase_text(rng, text):
+    """letter case Fortran ignores: keywords and identifiers, word by word (outside character literals)"""
+    out, q, word = [], None, []
+
+    def flush():
+        if word:
+            w = "".join(word)
+            if w[0].isalpha() and rng.random() < 0.35:
+                w = G.recase_name(rng, w)
+            out.append(w)
+            word.clear()
+    for ch in text:
+        if q:
+            out.append(ch)
+            if ch == q:
+                q = None
+        elif ch in "'\"":
+            flush()
+            q = ch
+            out.append(ch)
+        elif ch.isalnum() or ch == "_":
+            word.append(ch)
+        else:
+            flush()
+            out.append(ch)
+    flush()
+    return "".join(out)
+
+
 def respace(rng, text):
     """blanks Fortran ignores: between a name and '(', around '%' (outside character literals)"""
     out, q = [], None
@@ -240,16 +270,18 @@ def respace(rng, text):
 
 def end_to_end(chk, rng, nproj):
     cases = []
-    stats = {"projects": 0, "units": 0, "ford_errors": 0, "stmts": 0, "respaced_projects": 0}
+    stats = {"projects": 0, "units": 0, "ford_errors": 0, "stmts": 0, "respaced_projects": 0, "lower_projects": 0}
     kinds = {}
     for k in range(nproj):
         knobs = dict(rng.choice(KNOB_SETS))
         proj = G.gen_project(rng, knobs)
-        strict = rng.random() < 0.75
-        if not strict:
-            knobs["respace"] = lambda text, _r=rng: respace(_r, text)
+        strict = rng.random() < 0.7
+        if not strict:     # blanks and letter case Fortran ignores, keywords included
+            knobs["respace"] = lambda text, _r=rng: recase_text(_r, respace(_r, text))
         files = G.render_project(rng, proj, knobs)
-        err, res = I.run_project(files)
+        lower = rng.random() < 0.2      # the `lower` option: FORD lower-cases every statement first
+        stats["lower_projects"] += lower
+        err, res = I.run_project(files, lower=True) if lower else I.run_project(files)
         stats["projects"] += 1
         stats["respaced_projects"] += not strict
         if err:
